@@ -306,7 +306,7 @@ func (s *schemaPropsValidator) validateDependencies(data interface{}, mainResult
 
 		if dep.Schema != nil {
 			mainResult.Merge(
-				newSchemaValidator(dep.Schema, s.Root, s.Path+"."+key, s.KnownFormats, s.Options).Validate(data),
+				newSchemaValidator(dep.Schema, s.Root, s.Path, s.KnownFormats, s.Options).Validate(data),
 			)
 			continue
 		}
